@@ -142,7 +142,7 @@ def read_routines(
     routine_ops: MutableSequence[MutableSequence[SsbOperation]] = []
     # Ops are numbered per document (starting at 1, across all routines of the document).
     op_counter = Counter()
-    for r in routines:
+    for r_id, r in enumerate(routines):
         if "ops" not in r:
             raise ValueError("Ops for a routine not set.")
         if "type" not in r:
@@ -150,7 +150,8 @@ def read_routines(
         if r["type"] == "COROUTINE":
             if "name" not in r:
                 raise ValueError("Target for a routine not set.")
-            named_coroutines.append(SsbCoroutine(-1, r["name"]))
+            # The decompilers look the name of a coroutine up by the index of its routine.
+            named_coroutines.append(SsbCoroutine(r_id, r["name"]))
             routine_infos.append(SsbRoutineInfo(SsbRoutineType.COROUTINE, -1))
             routine_ops.append(read_ops(r["ops"], op_counter))
         elif r["type"] == "GENERIC":
